@@ -123,6 +123,10 @@ func serve(n *node, t *Task) {
 	req := httptest.NewRequest(plan.Verb, "http://sim.local"+plan.URL, body)
 	if plan.Body != "" {
 		req.ContentLength = int64(len(plan.Body))
+		if plan.UnknownLength {
+			req.ContentLength = -1
+			req.TransferEncoding = []string{"chunked"}
+		}
 	}
 	if plan.CancelledRequest {
 		ctx, cancel := context.WithCancel(req.Context())
@@ -252,7 +256,7 @@ func shapeTags(p *ReqPlan) string {
 	var tags []string
 	for _, t := range p.Tags {
 		switch t {
-		case "doubled-slash", "no-leading-slash", "root", "trailing-slash", "param", "hyphen-param", "plain",
+		case "doubled-slash", "no-leading-slash", "root", "trailing-slash", "slash-twin", "param", "hyphen-param", "plain",
 			"shadows-earlier-param", "shadows-later-param", "has-literal-sibling":
 			tags = append(tags, t)
 		}
@@ -344,6 +348,9 @@ func altKeys(rt projgen.Route) map[string]bool {
 // judgePlan applies the C02, C03 and C05 oracles to one (plan, engine) outcome.
 func (j *judge) judgePlan(plan *ReqPlan, o Outcome, group []*ReqPlan, seed uint64) {
 	ex := plan.Expect
+	if why := ex.PolicyFor[o.Engine]; why != "" && ex.Policy == "" {
+		ex.Policy = why // judged as a framework-policy shape on this engine only
+	}
 	outs := []Outcome{o}
 	for _, e := range o.Events {
 		if e.Kind == "CrossTalk" {
@@ -589,6 +596,9 @@ func (j *judge) judgeReplicas(plan *ReqPlan, outs map[string]Outcome, group []*R
 	for e := range outs {
 		if j.isBroken(e, plan) {
 			continue // this engine does not serve the route at all: reported once under C02
+		}
+		if plan.Expect.PolicyFor[e] != "" {
+			continue // framework-policy shape for this engine
 		}
 		engines = append(engines, e)
 	}
